@@ -45,6 +45,19 @@ Print Assumptions c02_failure_is_error.
 Example c02_failure_example : resolve U_F1 ["a"; "nosuch"] [] [] = Err /\ resolve U_F1 ["c>9"] [] [] = Err.
 Proof. vm_compute. split; reflexivity. Qed.
 
+(* REFUTED: the stronger reading "a successful result satisfies every request"
+   (request-unsat impossible) is false of the faithful model and of the real
+   code.  F1c: world [k], d=2.0 provides k and depends on l, d=1.0 provides l:
+   the requested d=2.0 is dropped by the de-duplication by name, result [d=1.0].
+   F6: r -> a, c=5.0 (install_if a), c=1.0, world [r, c<2]: c=5.0 is added by
+   the install_if loop without consulting dq, result [a, c=5.0, r].  Both are
+   in the harness corpus and reproduce on the implementation. *)
+Theorem c02_request_satisfied_refuted :
+  request_refutes U_F1c ["k"] [] "k" "request-unsat/sibling-of-member" /\
+  request_refutes U_F6 ["r"; "c<2"] [["a"]] "c<2" "request-unsat/install-if-member".
+Proof. exact request_unsat_refuted_lemma. Qed.
+Print Assumptions c02_request_satisfied_refuted.
+
 (* the fuel the model gives getPackageDependencies — distinct package names + 2
    (fuel_bound) — never runs out, cycles included *)
 Theorem c02_termination : forall U W dq0 scheds, resolve U W dq0 scheds <> OutOfFuel.
